@@ -1,6 +1,6 @@
 /-
   `core.ToBytes` (internal/core/core.go): how the Go API turns a value argument into the stored bytes.
-  Floats (`strconv.FormatFloat(v, 'f', -1, 64)`) are not modelled here. Core Lean only.
+  Floats are printed with `strconv.FormatFloat(v, 'f', -1, 64)` (`Redka.formatFloatDec`). Core Lean only.
 -/
 import RedkaModel.Basic
 
@@ -22,5 +22,15 @@ def toBytes : GoVal → Bytes
   | .int i => itoa i
   | .str s => s
   | .bytes b => b
+
+/-- every accepted dynamic type: the four above and `float64` (a normal float64 as an exact dyadic) -/
+inductive GoArg where
+  | val (v : GoVal)
+  | float (d : Dyadic)
+
+/-- `core.ToBytes`; `none`: a float outside the domain of `formatFloatDec` (not a normal float64) -/
+def argBytes : GoArg → Option Bytes
+  | .val v => some (toBytes v)
+  | .float d => formatFloatDec d
 
 end Redka.Conv
